@@ -680,7 +680,36 @@ def rule10_wsapi(ctx, fl):
             h.params[0]['id'] in h.sources(ix[0][1], through_arith=True)
     ctx.ob('C02.10', 'wsapi pass: hands the thread to the target worker\'s queue and reports the outcome', okp,
            'the caller keeps responsibility for the thread exactly when pass reports failure', loc=h.loc)
-    ctx.floor('C02.10', 3)
+    # the unlocked pre-check of the thief-side operations refuses only an empty queue: a victim that holds exactly one runnable thread
+    # (typically the continuation its owner is waiting for) must stay stealable
+    vq = ctx.view(NATIVE, roots=['myth_wsapi_runqueue_take', 'myth_wsapi_runqueue_peek'], stops=lib.SPIN_STOPS, flavour=fl)
+    vw = ctx.view('myth_worker.c', roots=['myth_queue_take'], stops=lib.SPIN_STOPS, flavour=fl)
+    for fn_ in (ctx.need_fn(vq, 'myth_wsapi_runqueue_take'), ctx.need_fn(vq, 'myth_wsapi_runqueue_peek'), ctx.need_fn(vw, 'myth_queue_take')):
+        locks = [c for c in fn_.calls() if c.callee in (lib.SPIN_LOCK, lib.SPIN_TRYLOCK)]
+        pre = []
+        for ic in fn_.order:
+            if ic.op != 'icmp' or ic.pred not in ('sle', 'slt', 'sge', 'sgt') or (locks and any(fn_.can_reach(l_, ic) for l_ in locks)):
+                continue
+            d = {k: c for k, c in lib.affine_diff(fn_, ic.ops[0], ic.ops[1]).items() if c != 0}
+            tl = [k for k in d if k in fn_.insts and fn_.insts[k].op == 'load' and fn_.field(fn_.insts[k]) == TOP]
+            bl = [k for k in d if k in fn_.insts and fn_.insts[k].op == 'load' and fn_.field(fn_.insts[k]) == BASE]
+            if len(tl) == 1 and len(bl) == 1 and len([k for k in d if k != '']) == 2 and d[tl[0]] == -d[bl[0]] and abs(d[tl[0]]) == 1:
+                sgn, c0 = d[tl[0]], d.get('', 0)
+                # sgn*(top - base) + c0  <pred>  0
+                pre.append((ic, sgn, c0))
+        for ic, sgn, c0 in pre:
+            # the refusing edge is the one from which a return is reached without any lock: express it as top - base <= K
+            K = None
+            if sgn == 1:
+                K = {'sle': -c0, 'slt': -c0 - 1}.get(ic.pred)          # true edge refuses
+                K = K if K is not None else {'sgt': -c0, 'sge': -c0 - 1}.get(ic.pred)   # false edge refuses
+            else:
+                K = {'sge': c0, 'sgt': c0 - 1}.get(ic.pred)            # -(top-base) + c0 >= 0  <=>  top - base <= c0
+                K = K if K is not None else {'slt': c0, 'sle': c0 - 1}.get(ic.pred)
+            ctx.ob('C02.10', '%s: the unlocked pre-check refuses only an empty queue' % fn_.name, K is not None and K <= 0,
+                   'return NULL before locking only when top - base <= 0 (a weaker pre-check merely falls through to the locked test); a threshold of one makes a sole queued thread unstealable',
+                   loc=ic.loc, detail='refuses when top - base <= %s' % K)
+    ctx.floor('C02.10', 4)
 
 
 def rule9_init(ctx, fl):
@@ -731,6 +760,8 @@ WSQ = 'src/myth_wsqueue_func.h'
 NAT = 'src/myth_if_native.c'
 SCHED = 'src/myth_sched_func.h'
 MUTANTS = [
+    {'name': 'wsapi take treats a queue with one entry as empty (seed5 C02/m1)', 'expect': 'C02.10',
+     'edits': [('src/myth_if_native.c', "  q = &g_envs[victim].runnable_q;\n  wc = &q->wc;\n#if QUICK_CHECK_ON_STEAL\n  if (q->top-q->base<=0){", "  q = &g_envs[victim].runnable_q;\n  wc = &q->wc;\n#if QUICK_CHECK_ON_STEAL\n  if (q->top-1<=q->base){")]},
     {'name': 'victim selection never picks the right-hand neighbour (seed4 C02/m1)', 'expect': 'C02.13',
      'edits': [('src/myth_worker_func.h', "  idx += (idx >= e->rank);", "  idx += (idx > e->rank);")]},
     {'name': 'trypass refuses every queue that has room (sweep M0471, passes the suite)', 'expect': 'C02.3',
